@@ -26,7 +26,7 @@ from pyasn1.codec import streaming
 from pyasn1.type import univ
 
 B = io.DEFAULT_BUFFER_SIZE
-_CTX = {'drv': None, 'dir': None}
+_CTX = {'drv': None, 'dir': None, 'model_large': 0}
 
 
 def scratch():
@@ -560,8 +560,10 @@ def check_kinds(rep, rng, cdc, ts, t, spec, data, label):
                  '%s, %d octets: as bytes -> %s, as %s -> %s' % (label, len(data), short(ref), name, short(got)),
                  dict(replay, substrate=name))
     # the model and the structural signature agree on where S4 applies (framing level)
-    if region[2] and ref[0] == 'ok' and len(data) <= 6 * B:
+    if region[2] and ref[0] == 'ok' and (len(data) <= 600 or (len(data) <= 2 * B + 400 and _CTX['model_large'] > 0)):
         drv = _CTX['drv']
+        if len(data) > 600:
+            _CTX['model_large'] -= 1
         k3 = drv.ask('STREAM K3 %s %s (%d)' % (cdc, gen.hexs(data), len(data)))
         k4 = drv.ask('STREAM K4 %s %s (%d)' % (cdc, gen.hexs(data), len(data)))
         rep.corr_checked += 1
@@ -774,6 +776,7 @@ def run(rep, tier, seed):
     drv = common.Driver()
     _CTX['drv'] = drv
     quick = tier == 'quick'
+    _CTX['model_large'] = 12 if quick else 300
     rep.rule = ('(A) random op histories (<=60 ops from read n / read(-1) / peek n / seek to >= mark / seek back / seek to mark / '
                 'set mark / tell / get mark, sizes straddling multiples of %d) on CachingStreamWrapper vs io.BytesIO vs the model; '
                 '(B) the same over a growing raw stream vs a growing seekable stream; (C) one-shot decodes of the same octets as bytes, '
